@@ -1,10 +1,57 @@
 (* Properties/C06.v — C06: a data node restarted after a crash serves exactly the acknowledged state.
    This file contains only the property theorems (closed by [exact]) and non-vacuity examples. *)
 From Coq Require Import NArith List Bool.
-From ZV Require Import Recover.Consts Recover.Path Recover.Proofs.
+From ZV Require Import Recover.Consts Recover.Path Recover.ProofsWal Recover.Proofs.
 Import ListNotations.
 Open Scope N_scope.
 
+(* a process can die at any instant: in every state of the path model the crash step is enabled *)
 Theorem C06_crash_any_instant : forall c s, exists s', step c s (EvCrash 0 0) = Ok s'.
 Proof. exact crash_enabled. Qed.
 Print Assumptions C06_crash_any_instant.
+
+(* the restart procedure on a well-shaped persistent world: the WAL's live segments hold exactly the entries
+   lo+1..hi cut at the segment names, the newest snapshot marker m is valid (<= the last saved commit), the
+   first live segment does not start after m, and m has its snap file and its checkpoint with the state at m:
+   then the restart succeeds and serves the state after applying entries 1..hi in order *)
+Theorem C06_restart_of_wellformed_world : forall ss lo hi sf cks m,
+  seg_chain lo ss hi -> lo = lo_of ss ->
+  In m (markers (all_recs ss)) -> (forall i, In i (markers (all_recs ss)) -> i <= m) ->
+  (forall i, In i (markers (all_recs ss)) -> i <= last_commit (all_recs ss)) ->
+  sfirst (hd (mkSeg 0 []) ss) <= m ->
+  ~ In 0 sf ->
+  (0 < m -> In m sf /\ lookup m cks = Some (range 0 m)) ->
+  recover ss sf cks = Ok (range 0 hi).
+Proof. exact recover_chain. Qed.
+Print Assumptions C06_restart_of_wellformed_world.
+
+(* non-vacuity: a run of the model that crosses a cut, a snapshot, a release, a WAL purge, ends in a crash and
+   a complete restart; the restarted node holds the snapshot state and replays the tail *)
+Example C06_cycle_example :
+  exists s, run (cfg2 true) init_state trace_cycle = Ok s /\ engine s = Some [1; 2; 3; 4; 5]
+    /\ map sfirst (segs s) = [3; 5] /\ applied s = 5 /\ rs_last s = 6 /\ acked s = 6
+    /\ recover_state s 0 0 = Ok [1; 2; 3; 4; 5; 6].
+Proof. exact cycle_example. Qed.
+
+(* W1: the crash model matters. With the fork's optimizedFsync mode entries are flushed (write(2)) but not
+   fdatasync'ed unless term or vote change: a power loss loses the acknowledged write 2 ... *)
+Theorem C06_powerloss_refuted :
+  exists evs s j l, run (cfg2 true) init_state evs = Ok s /\ (j <= unsynced s)%nat
+    /\ recover_state_powerloss s j = Ok l /\ acked s = 2 /\ l = [1].
+Proof. exact powerloss_refuted. Qed.
+Print Assumptions C06_powerloss_refuted.
+
+(* ... while a process death does not, and without optimizedFsync nothing is left unsynced *)
+Example C06_powerloss_example_ok :
+  exists s, run (cfg2 true) init_state trace_w1 = Ok s /\ recover_state s 0 0 = Ok [1; 2]
+  /\ exists s', run (cfg2 false) init_state trace_w1 = Ok s' /\ unsynced s' = 0%nat.
+Proof. exact powerloss_example_ok. Qed.
+
+(* the schedule hypothesis of the invariant theorems is needed: with two snapshot goroutines between snap file
+   and WAL marker when the snap directory purge runs, the only recorded snapshot is evicted *)
+Theorem C06_two_snapshots_in_flight_refuted :
+  exists s, run (cfg2 true) init_state trace_two_windows = Ok s
+    /\ sns s = [(7, SnFile); (6, SnFile)] /\ acked s = 7
+    /\ recover_state s 0 0 = Err E_FILE_NOT_FOUND.
+Proof. exact two_windows_refuted. Qed.
+Print Assumptions C06_two_snapshots_in_flight_refuted.
